@@ -4,7 +4,8 @@
   `min`, if/elif/else, assignment, augmented assignment, raise), extended in a second round for the chunk-header,
   size/padding and routing blocks: `& | >> << % //`, unary minus, `!=`, text as lists of code points (constants,
   `==`/`!=`, `[:n]`, `[n:]`, `[i]`, `[::-1]`, `startswith`, `"{0:0Nb}".format`, `int()`, `bool()`, literal str→str
-  dict lookup, `os.path.join(x, "")`), `in` on literal int tuples, `int(np.prod(shape))`.  `harness/py2lean.py` translates the
+  dict lookup, `os.path.join(x, "")`), `in` on literal int tuples, `int(np.prod(shape))`, `True`/`False`,
+  `x[a:b]`, `numpy.frombuffer(four bytes, ">u4")[0]`.  `harness/py2lean.py` translates the
   *source text* of the chosen function bodies into `Stmt` values (pure syntax → syntax); the semantics below is the
   trusted reading of that fragment.  Theorems in Props/ relate the interpreted source to the hand-written model.
 -/
@@ -56,6 +57,9 @@ inductive Expr where
   | dropN (e : Expr) (n : Nat)                -- `e[n:]`
   | startswith (a b : Expr)                   -- `a.startswith(b)`
   | joinEmpty (e : Expr)                      -- `os.path.join(e, "")` (posixpath)
+  | boolc (b : Bool)                          -- `True` / `False`
+  | slice2 (e a b : Expr)                     -- `e[a:b]` with computed non-negative bounds
+  | beU32 (e : Expr)                          -- `numpy.frombuffer(e, dtype=">u4")[0]` of exactly four bytes
 deriving Repr, Inhabited
 
 inductive Stmt where
@@ -158,6 +162,14 @@ def strLookup : List (List Nat × List Nat) → List Nat → Except Err Val
 /-- `posixpath.join(a, "")`: a separator is appended unless `a` is empty or already ends with one -/
 def joinEmpty (a : List Nat) : List Nat :=
   if a.isEmpty || a.getLast? = some 47 then a else a ++ [47]
+
+/-- `numpy.frombuffer(b, dtype=">u4")[0]`: only a buffer of exactly four bytes (each 0..255) is covered -/
+def beU32 : List Int → Except Err Int
+  | [b0, b1, b2, b3] =>
+    if 0 ≤ b0 ∧ b0 < 256 ∧ 0 ≤ b1 ∧ b1 < 256 ∧ 0 ≤ b2 ∧ b2 < 256 ∧ 0 ≤ b3 ∧ b3 < 256 then
+      .ok (((b0 * 256 + b1) * 256 + b2) * 256 + b3)
+    else .error .unsupported
+  | _ => .error .unsupported
 
 def prodInts : List Int → Int
   | [] => 1
@@ -281,6 +293,21 @@ def eval (env : Env) : Expr → Except Err Val
   | .joinEmpty e => do
       match (← eval env e) with
       | .str cs => .ok (.str (joinEmpty cs))
+      | _ => .error .typeError
+  | .boolc b => .ok (.bool b)
+  | .slice2 e a b => do
+      let v ← eval env e
+      let x ← asInt (← eval env a)
+      let y ← asInt (← eval env b)
+      if 0 ≤ x ∧ x ≤ y then
+        match v with
+        | .ilist l => .ok (.ilist ((l.drop x.toNat).take (y.toNat - x.toNat)))
+        | .str cs => .ok (.str ((cs.drop x.toNat).take (y.toNat - x.toNat)))
+        | _ => .error .typeError
+      else .error .unsupported
+  | .beU32 e => do
+      match (← eval env e) with
+      | .ilist l => .ok (.int (← beU32 l))
       | _ => .error .typeError
 
 def exec (env : Env) : Stmt → Except Err Env
